@@ -3,6 +3,7 @@ package c17
 import (
 	"reflect"
 	"sort"
+	"strings"
 
 	"github.com/llir/llvm/ir"
 	"github.com/llir/llvm/ir/metadata"
@@ -120,20 +121,24 @@ func observe(m *ir.Module, keepLits bool) observation {
 		}
 		obs.Named = append(obs.Named, on)
 	}
-	none := op{"k": "none"}
-	first := func(mds []*metadata.Attachment) op {
-		if len(mds) == 0 {
-			return none
+	list := func(mds []*metadata.Attachment) []att {
+		out := []att{}
+		for _, md := range mds {
+			o, ok := opOf(md.Node)
+			if !ok {
+				o = op{"k": "none"}
+			}
+			out = append(out, att{Name: md.Name, Node: o})
 		}
-		if o, ok := opOf(mds[0].Node); ok {
-			return o
-		}
-		return none
+		return out
 	}
-	obs.Sites = obsSites{Global: none, Func: none, Inst: none, Term: none, Args: []op{}}
-	for _, g := range m.Globals {
-		if len(g.Metadata) > 0 {
-			obs.Sites.Global = first(g.Metadata)
+	obs.Sites = obsSites{Global: []att{}, Decl: []att{}, Func: []att{}, Inst: []att{}, Term: []att{}, Args: []op{}}
+	if len(m.Globals) > 0 {
+		obs.Sites.Global = list(m.Globals[0].Metadata)
+	}
+	for _, f := range m.Funcs {
+		if len(f.Blocks) == 0 && !strings.HasPrefix(f.Name(), "llvm.") {
+			obs.Sites.Decl = list(f.Metadata)
 			break
 		}
 	}
@@ -141,14 +146,12 @@ func observe(m *ir.Module, keepLits bool) observation {
 		if len(f.Blocks) == 0 {
 			continue
 		}
-		obs.Sites.Func = first(f.Metadata)
-		instDone := false
-		for _, b := range f.Blocks {
-			for _, inst := range b.Insts {
-				if !instDone {
-					if md, ok := inst.(interface{ MDAttachments() []*metadata.Attachment }); ok && len(md.MDAttachments()) > 0 {
-						obs.Sites.Inst = first(md.MDAttachments())
-						instDone = true
+		obs.Sites.Func = list(f.Metadata)
+		for bi, b := range f.Blocks {
+			for ii, inst := range b.Insts {
+				if bi == 0 && ii == 0 {
+					if md, ok := inst.(interface{ MDAttachments() []*metadata.Attachment }); ok {
+						obs.Sites.Inst = list(md.MDAttachments())
 					}
 				}
 				if c, ok := inst.(*ir.InstCall); ok {
@@ -162,8 +165,10 @@ func observe(m *ir.Module, keepLits bool) observation {
 					}
 				}
 			}
-			if md, ok := b.Term.(interface{ MDAttachments() []*metadata.Attachment }); ok && len(md.MDAttachments()) > 0 {
-				obs.Sites.Term = first(md.MDAttachments())
+			if bi == len(f.Blocks)-1 {
+				if md, ok := b.Term.(interface{ MDAttachments() []*metadata.Attachment }); ok {
+					obs.Sites.Term = list(md.MDAttachments())
+				}
 			}
 		}
 		break
